@@ -1,7 +1,8 @@
 (* C15 -- relayout is lazy, dirtiness is exact.  Engine-skeleton theorems, every algorithm satisfying WF and H1. *)
 From Coq Require Import List Bool Arith NArith.
-From TV Require Import Model.Engine Model.EngineToy Proofs.EngineMemo Proofs.EngineDirty Proofs.EngineHistory
-  Proofs.EngineFrame Proofs.EngineToyProofs Proofs.EngineTotal.
+From TV Require Import Num.Num Num.QNum Model.Cache Model.Engine Model.EngineToy Model.EngineReal Model.EngineForestG Model.EngineRealToy
+  Proofs.EngineMemo Proofs.EngineDirty Proofs.EngineHistory
+  Proofs.EngineFrame Proofs.EngineToyProofs Proofs.EngineTotal Proofs.EngineRealDirty Proofs.EngineRealHistory.
 Import ListNotations.
 
 (* recomputing the layout of an unchanged tree with the same input is answered by the root's cache entry: the tree is
@@ -110,6 +111,160 @@ Theorem C15_pass_succeeds_with_enough_fuel :
     forall f t i, height S In Out Lay t <= f ->
       exists o t', memo S In Out Lay mode in_eqb is_none hidden_out zero_lay algo f t i = Some (o, t').
 Proof. intros until algo. intros HB f t i Hh. apply memo_total; assumption. Qed.
+
+(* ================================================================================================================== *)
+(* The statements above that do not depend on the key being exact, over the cache INTERFACE of Model/EngineReal.v (`gmemo`,
+   `gmark_dirty`: the definitions the real-cache event-level correspondence runs, notes/REALHIST.md), for ANY cache that satisfies
+   `cache_laws` (eleven laws relating "has a final-layout entry" `cfinal`, `cdirty`, `cget`, `cstore`, `cclear`, `cempty` under a
+   representation invariant `Cok`), and for the REAL cache of src/tree/cache.rs, which satisfies them (C15_real_cache_laws). *)
+Module RealCache.
+
+(* the real cache satisfies the laws: cfinal := a final entry is present, Cok := nine slots /\ (is_empty flag set -> no entry) *)
+Theorem C15_real_cache_laws :
+  forall (T : Type) (NT : Num T) (In Out : Type) (mode : In -> RunMode) (key_of : In -> Cache.key T)
+         (osize : Out -> Cache.size T) (from_outer : Cache.size T -> Out),
+    cache_laws In Out mode (rcache In Out) (rnew In Out) (rget In Out mode key_of osize from_outer) (rstore In Out mode key_of)
+               (rclear In Out) (rdirty In Out) (rfinal In Out) (rwf In Out).
+Proof. intros. apply real_cache_laws. Qed.
+
+(* second pass, any cache: if a lookup under the key just stored hits, recomputing the layout of an unchanged tree with the same
+   input is answered by the root's entry; the tree comes back as it is except for the root's (ghost) hit counter *)
+Theorem C15_real_second_pass_silent :
+  forall (S In Out Lay : Type) (mode : In -> RunMode) (is_none : S -> bool) (hidden_out : Out) (zero_lay : Lay)
+         (algo : S -> list S -> In -> Alg In Out Lay) (mcalls : S -> list S -> In -> N)
+         (C : Type) (cget : C -> In -> option Out) (clossy : C -> In -> bool) (cstore : C -> In -> Out -> C) (cclear : C -> C),
+    (forall c o i, mode i = PerformLayout -> cget (cstore c i o) i = Some o) ->
+    forall f g t i o t',
+      mode i = PerformLayout ->
+      gmemo S In Out Lay mode is_none hidden_out zero_lay algo mcalls C cget clossy cstore cclear f t i = Some (o, t') ->
+      gmemo S In Out Lay mode is_none hidden_out zero_lay algo mcalls C cget clossy cstore cclear (Datatypes.S g) t' i
+        = Some (o, ghit_root S In Lay C clossy i t').
+Proof. intros until cclear. intros Hs. intros. eapply gsecond_pass_silent; eauto. Qed.
+
+(* ... and for the real cache the premise is needed for the ROOT input only and is C02_store_hit's: its key matches itself
+   (`self_compat`: C02_refl_key_F32 -- known dimensions not NaN, definite available space finite) *)
+Theorem C15_real_cache_second_pass_silent :
+  forall (T : Type) (NT : Num T) (S In Out Lay : Type) (mode : In -> RunMode) (is_none : S -> bool) (hidden_out : Out) (zero_lay : Lay)
+         (algo : S -> list S -> In -> Alg In Out Lay) (mcalls : S -> list S -> In -> N)
+         (key_of : In -> Cache.key T) (osize : Out -> Cache.size T) (from_outer : Cache.size T -> Out)
+         (in_eqb : In -> In -> bool) (is_outer : Out -> bool),
+    forall f g t i o t',
+      mode i = PerformLayout -> self_compat (key_of i) ->
+      memo_real S In Out Lay mode is_none hidden_out zero_lay algo mcalls key_of osize from_outer in_eqb is_outer f t i = Some (o, t') ->
+      memo_real S In Out Lay mode is_none hidden_out zero_lay algo mcalls key_of osize from_outer in_eqb is_outer (Datatypes.S g) t' i
+        = Some (o, ghit_root S In Lay (rcache In Out) (rlossy In Out mode key_of osize in_eqb is_outer) i t').
+Proof. intros. eapply real_second_pass_silent; eauto. Qed.
+
+(* after a layout pass no box-generating node under the root is dirty, any lawful cache *)
+Theorem C15_real_clean_after_pass :
+  forall (S In Out Lay : Type) (mode : In -> RunMode) (is_none : S -> bool) (hidden_out : Out) (zero_lay : Lay)
+         (algo : S -> list S -> In -> Alg In Out Lay) (mcalls : S -> list S -> In -> N)
+         (C : Type) (cempty : C) (cget : C -> In -> option Out) (clossy : C -> In -> bool) (cstore : C -> In -> Out -> C) (cclear : C -> C)
+         (cdirty cfinal : C -> bool) (Cok : C -> Prop),
+    cache_laws In Out mode C cempty cget cstore cclear cdirty cfinal Cok ->
+    (forall s st i, WFAlg In Out Lay mode (algo s st i)) ->
+    (forall s st i, mode i = PerformLayout -> Visits In Out Lay mode (seq 0 (length st)) (algo s st i)) ->
+    forall f t i o t',
+      mode i = PerformLayout -> GOk S Lay C Cok t -> GJ S Lay is_none C cdirty cfinal t -> GB S Lay is_none C cdirty cfinal t ->
+      gmemo S In Out Lay mode is_none hidden_out zero_lay algo mcalls C cget clossy cstore cclear f t i = Some (o, t') ->
+      GFull S Lay is_none C cdirty cfinal t' /\ GOk S Lay C Cok t' /\ GJ S Lay is_none C cdirty cfinal t' /\ GB S Lay is_none C cdirty cfinal t'.
+Proof. intros until Cok. intros HL HWF HH1. intros. eapply gpass_clean; eauto. Qed.
+
+Theorem C15_real_full_means_not_dirty :
+  forall (S In Out Lay : Type) (mode : In -> RunMode) (is_none : S -> bool)
+         (C : Type) (cempty : C) (cget : C -> In -> option Out) (cstore : C -> In -> Out -> C) (cclear : C -> C)
+         (cdirty cfinal : C -> bool) (Cok : C -> Prop),
+    cache_laws In Out mode C cempty cget cstore cclear cdirty cfinal Cok ->
+    forall s c l n kids, GFull S Lay is_none C cdirty cfinal (GNode S Lay C s c l n kids) -> cdirty c = false.
+Proof. intros until Cok. intros HL. intros. eapply GFull_not_dirty; eauto. Qed.
+
+(* mark_dirty (hence every mutator: gmutate = edit, then gmark_dirty) at a node without display:none ancestor: afterwards the node and
+   each of its ancestors is dirty, the cache of every other node and every style, stored layout and counter is unchanged -- the
+   AlreadyEmpty early exit loses nothing, for any lawful cache (only `final_not_dirty` and `clear_dirty` are used: "cempty sound") *)
+Theorem C15_real_mark_exact :
+  forall (S In Out Lay : Type) (mode : In -> RunMode) (is_none : S -> bool)
+         (C : Type) (cempty : C) (cget : C -> In -> option Out) (cstore : C -> In -> Out -> C) (cclear : C -> C)
+         (cdirty cfinal : C -> bool) (Cok : C -> Prop),
+    cache_laws In Out mode C cempty cget cstore cclear cdirty cfinal Cok ->
+    forall t p,
+      GOk S Lay C Cok t -> GJ S Lay is_none C cdirty cfinal t -> GB S Lay is_none C cdirty cfinal t ->
+      gvisible_path S Lay is_none C t p -> (exists u, gsubtree S Lay C t p = Some u) ->
+      let t' := gmark_dirty S Lay C cclear cdirty t p in
+      (forall q, is_prefix q p = true -> exists c, gcache_at S Lay C t' q = Some c /\ cdirty c = true) /\
+      (forall q, is_prefix q p = false -> gcache_at S Lay C t' q = gcache_at S Lay C t q) /\
+      (forall q, gstyle_at S Lay C t' q = gstyle_at S Lay C t q) /\
+      (forall q, glay_at S Lay C t' q = glay_at S Lay C t q) /\
+      (forall q, gstats_at S Lay C t' q = gstats_at S Lay C t q).
+Proof.
+  intros until Cok. intros HL t p HO HJ HB Hv Hu t'.
+  exact (proj1 (gmd_exact S In Out Lay mode is_none C cempty cget cstore cclear cdirty cfinal Cok HL p t HO HJ HB Hv Hu)).
+Qed.
+
+(* the premises are satisfiable: a freshly built tree satisfies GOk, GJ and GB (any lawful cache) ... *)
+Theorem C15_real_fresh_invariants :
+  forall (S In Out Lay : Type) (mode : In -> RunMode) (is_none : S -> bool) (zero_lay : Lay)
+         (C : Type) (cempty : C) (cget : C -> In -> option Out) (cstore : C -> In -> Out -> C) (cclear : C -> C)
+         (cdirty cfinal : C -> bool) (Cok : C -> Prop),
+    cache_laws In Out mode C cempty cget cstore cclear cdirty cfinal Cok ->
+    forall k, let t := gfresh S Lay zero_lay C cempty k in
+              GOk S Lay C Cok t /\ GJ S Lay is_none C cdirty cfinal t /\ GB S Lay is_none C cdirty cfinal t.
+Proof. intros until Cok. intros HL k. eapply gfresh_inv; eauto. Qed.
+
+(* the invariants hold in every state reachable from a state satisfying them (e.g. a fresh tree) by mutators -- edit, then gmark_dirty,
+   at nodes without display:none ancestor, attached subtrees satisfying the invariants themselves -- and PerformLayout passes: the
+   premises of C15_real_mark_exact / C15_real_clean_after_pass are never false along a history, for any lawful cache *)
+Theorem C15_real_invariants_reachable :
+  forall (S In Out Lay : Type) (mode : In -> RunMode) (is_none : S -> bool) (hidden_out : Out) (zero_lay : Lay)
+         (algo : S -> list S -> In -> Alg In Out Lay) (mcalls : S -> list S -> In -> N)
+         (C : Type) (cempty : C) (cget : C -> In -> option Out) (clossy : C -> In -> bool) (cstore : C -> In -> Out -> C) (cclear : C -> C)
+         (cdirty cfinal : C -> bool) (Cok : C -> Prop),
+    cache_laws In Out mode C cempty cget cstore cclear cdirty cfinal Cok ->
+    (forall s st i, WFAlg In Out Lay mode (algo s st i)) ->
+    (forall s st i, mode i = PerformLayout -> Visits In Out Lay mode (seq 0 (length st)) (algo s st i)) ->
+    forall ops t,
+      GInv S Lay is_none C cdirty cfinal Cok t ->
+      grun_ok S In Out Lay mode is_none hidden_out zero_lay algo mcalls C cget clossy cstore cclear cdirty cfinal Cok t ops ->
+      GInv S Lay is_none C cdirty cfinal Cok
+        (grun_ops S In Out Lay mode is_none hidden_out zero_lay algo mcalls C cget clossy cstore cclear cdirty t ops).
+Proof. intros until Cok. intros HL HWF HH1. intros. eapply ghistory_inv; eauto. Qed.
+
+(* ... and on the toy instance of the real-cache engine (Model/EngineRealToy.v, 6 nodes, node 3 display:none with a child): the first
+   pass succeeds and fills the caches; the second pass with ONE unit of fuel returns the same output and the same tree up to the
+   root's hit counter; after the pass the dirty flags (pre-order) are false except below the display:none node; marking node 2
+   (path [0;0]) dirties exactly nodes 0, 1, 2 *)
+Definition rex_pass1 : option (TOut * rtree TS TIn TOut TLay) := tr_memo 8 (tr_fresh tr_k) (PerformLayout, 6%N).
+Fixpoint rex_flags (t : rtree TS TIn TOut TLay) : list bool :=
+  match t with GNode _ _ _ _ c _ _ kids => rdirty TIn TOut c :: flat_map rex_flags kids end.
+
+Example C15_real_example :
+  exists o t1,
+    rex_pass1 = Some (o, t1) /\
+    rex_flags (tr_fresh tr_k) = [true; true; true; true; true; true] /\
+    rex_flags t1 = [false; false; false; false; true; false] /\
+    tr_memo 1 t1 (PerformLayout, 6%N)
+      = Some (o, ghit_root TS TIn TLay (rcache TIn TOut) (rlossy TIn TOut t_mode tr_key tr_osize t_in_eqb tr_is_outer) (PerformLayout, 6%N) t1) /\
+    self_compat (tr_key (PerformLayout, 6%N)) /\
+    gvisible_path TS TLay t_is_none (rcache TIn TOut) t1 [0; 0]%nat /\
+    rex_flags (gmark_dirty TS TLay (rcache TIn TOut) (rclear TIn TOut) (rdirty TIn TOut) t1 [0; 0]%nat)
+      = [true; true; true; false; true; false].
+Proof.
+  destruct rex_pass1 as [[o t1]|] eqn:E; [|vm_compute in E; discriminate].
+  exists o, t1. split; [reflexivity|].
+  vm_compute in E. injection E as <- <-.
+  split; [vm_compute; reflexivity|]. split; [vm_compute; reflexivity|]. split; [vm_compute; reflexivity|].
+  split; [repeat split; vm_compute; try reflexivity; discriminate|].
+  split; [cbn; auto|]. vm_compute. reflexivity.
+Qed.
+
+Print Assumptions C15_real_cache_laws.
+Print Assumptions C15_real_second_pass_silent.
+Print Assumptions C15_real_cache_second_pass_silent.
+Print Assumptions C15_real_clean_after_pass.
+Print Assumptions C15_real_full_means_not_dirty.
+Print Assumptions C15_real_mark_exact.
+Print Assumptions C15_real_fresh_invariants.
+Print Assumptions C15_real_invariants_reachable.
+End RealCache.
 
 Print Assumptions C15_second_pass_silent.
 Print Assumptions C15_clean_after_pass.
